@@ -13,7 +13,9 @@ package c33
 
 import (
 	"context"
+	"errors"
 	"fmt"
+	"reflect"
 	"runtime"
 	"sort"
 	"strings"
@@ -35,10 +37,11 @@ const (
 var modeNames = [nModes]string{"process-kill", "power-loss", "torn-write", "partial-loss"}
 
 type modeState struct {
-	mode   int
-	st     *fsState
-	note   string
-	sameAs int // mode whose post-crash filesystem is byte-identical (-1: none earlier)
+	mode    int
+	variant int // seeded variant of a randomised loss mode
+	st      *fsState
+	note    string
+	sameAs  int // index (in the returned slice) of an earlier byte-identical post-crash filesystem, or -1
 }
 
 // pathOfIno finds the linked path of an inode.
@@ -53,60 +56,66 @@ func pathOfIno(s *fsState, ino int) string {
 
 // materialise builds the post-crash filesystems of prefix j for the loss
 // modes. Only unsynced file tails are ever lost.
-func materialise(r *vh.Run, run *wlRun, w, j int, modes []int) []modeState {
+func materialise(r *vh.Run, run *wlRun, w, j int, modes []int, variants int) []modeState {
 	s := replay(run.Journal, j)
 	unsynced := s.unsyncedFiles()
-	rng := r.Rand(fmt.Sprintf("loss/%s", run.Name), j)
 	var out []modeState
 	seen := map[string]int{}
 	for _, m := range modes {
-		cuts := map[string]int64{}
-		note := ""
-		switch m {
-		case modeKill:
-		case modePower:
-			for _, p := range unsynced {
-				cuts[p] = s.files[p].synced
-			}
-		case modeTorn:
-			// the last write is cut at a seeded byte; if the last op is not a
-			// write, a seeded unsynced tail is cut somewhere inside
-			if j > 0 && run.Journal[j-1].Kind == opWrite && len(run.Journal[j-1].Data) >= 2 {
-				o := run.Journal[j-1]
-				if p := pathOfIno(s, o.Ino); p != "" && s.files[p].synced <= o.Off {
-					cuts[p] = o.Off + 1 + rng.Int64N(int64(len(o.Data))-1)
-					note = fmt.Sprintf("last write to %s cut at byte %d of %d", p, cuts[p]-o.Off, len(o.Data))
+		nv := 1
+		if m == modeTorn || m == modePartial {
+			nv = variants
+		}
+		for variant := 0; variant < nv; variant++ {
+			rng := r.Rand(fmt.Sprintf("loss/%s/%d/%d", run.Name, m, variant), j)
+			cuts := map[string]int64{}
+			note := ""
+			switch m {
+			case modeKill:
+			case modePower:
+				for _, p := range unsynced {
+					cuts[p] = s.files[p].synced
+				}
+			case modeTorn:
+				// the last write is cut at a seeded byte; if the last op is not
+				// a write, a seeded unsynced tail is cut somewhere inside
+				if j > 0 && run.Journal[j-1].Kind == opWrite && len(run.Journal[j-1].Data) >= 2 {
+					o := run.Journal[j-1]
+					if p := pathOfIno(s, o.Ino); p != "" && s.files[p].synced <= o.Off {
+						cuts[p] = o.Off + 1 + rng.Int64N(int64(len(o.Data))-1)
+						note = fmt.Sprintf("last write to %s cut at byte %d of %d", p, cuts[p]-o.Off, len(o.Data))
+					}
+				}
+				if len(cuts) == 0 && len(unsynced) > 0 {
+					p := unsynced[rng.IntN(len(unsynced))]
+					n := s.files[p]
+					cuts[p] = n.synced + rng.Int64N(int64(len(n.data))-n.synced)
+					note = fmt.Sprintf("unsynced tail of %s cut at %d (synced %d, length %d)", p, cuts[p], n.synced, len(n.data))
+				}
+			case modePartial:
+				for _, p := range unsynced {
+					n := s.files[p]
+					switch rng.IntN(3) {
+					case 0: // kept
+					case 1:
+						cuts[p] = n.synced
+					case 2:
+						cuts[p] = n.synced + rng.Int64N(int64(len(n.data))-n.synced+1)
+					}
+				}
+				if len(cuts) > 0 {
+					note = fmt.Sprintf("cuts %v", cuts)
 				}
 			}
-			if len(cuts) == 0 && len(unsynced) > 0 {
-				p := unsynced[rng.IntN(len(unsynced))]
-				n := s.files[p]
-				cuts[p] = n.synced + rng.Int64N(int64(len(n.data))-n.synced)
-				note = fmt.Sprintf("unsynced tail of %s cut at %d (synced %d, length %d)", p, cuts[p], n.synced, len(n.data))
+			ms := modeState{mode: m, variant: variant, st: s.cut(cuts), note: note, sameAs: -1}
+			fp := ms.st.fingerprint()
+			if prev, ok := seen[fp]; ok {
+				ms.sameAs = prev
+			} else {
+				seen[fp] = len(out)
 			}
-		case modePartial:
-			for _, p := range unsynced {
-				n := s.files[p]
-				switch rng.IntN(3) {
-				case 0: // kept
-				case 1:
-					cuts[p] = n.synced
-				case 2:
-					cuts[p] = n.synced + rng.Int64N(int64(len(n.data))-n.synced+1)
-				}
-			}
-			if len(cuts) > 0 {
-				note = fmt.Sprintf("cuts %v", cuts)
-			}
+			out = append(out, ms)
 		}
-		ms := modeState{mode: m, st: s.cut(cuts), note: note, sameAs: -1}
-		fp := ms.st.fingerprint()
-		if prev, ok := seen[fp]; ok {
-			ms.sameAs = prev
-		} else {
-			seen[fp] = m
-		}
-		out = append(out, ms)
 	}
 	return out
 }
@@ -142,7 +151,15 @@ func fileClass(p string) string {
 	return "directory/other"
 }
 
-// recoverPoint restarts kfake on one post-crash filesystem and judges it.
+const probeGroup = "c33-probe"
+
+// recoverPoint restarts kfake on one post-crash filesystem and judges it:
+//
+//	start 1 (crash recovery): observe O1, judge against the ack journal; then
+//	  one probe batch per partition and one probe commit are sent and acked,
+//	  O1' is observed and the filesystem is copied (K = process kill now);
+//	clean Close, start 2: must observe exactly O1' (idempotent restart);
+//	start 3 on K: the logs and commits of O1' (old data and probes) are there.
 func recoverPoint(r *vh.Run, run *wlRun, j int, ms modeState) (fails []failure, c judgeCounts, ok bool) {
 	fsys := fsFromState(ms.st, false)
 	n, err, panicked := startNode(fsys, run.Sync)
@@ -154,28 +171,104 @@ func recoverPoint(r *vh.Run, run *wlRun, j int, ms modeState) (fails []failure, 
 	}
 	ctx, cancel := reqCtx()
 	defer cancel()
-	o1, oerr := observe(ctx, n, run.Groups, run.Txids, false)
+	groups := append(append([]string(nil), run.Groups...), probeGroup)
+	inconclusive := func(where string, err error) {
+		r.Inconclusive(fmt.Sprintf("%s prefix %d %s: %s: %v", run.Name, j, modeNames[ms.mode], where, err))
+	}
+	o1, oerr := observe(ctx, n, groups, run.Txids, false)
 	if oerr != nil {
 		n.stop()
-		r.Inconclusive(fmt.Sprintf("%s prefix %d %s: observing the recovered cluster: %v", run.Name, j, modeNames[ms.mode], oerr))
+		inconclusive("observing the recovered cluster", oerr)
 		return nil, c, false
 	}
 	fails, c = judge(run, j, o1)
-	// a second, clean restart must be idempotent
+
+	// the recovered cluster must keep working: probes
+	probed := 0
+	var commitAt *tp
+	for _, name := range sortedKeys(o1.Topics) {
+		t := o1.Topics[name]
+		for p := 0; p < t.Parts; p++ {
+			key := tp{name, int32(p)}
+			if v := o1.Parts[key]; v == nil || v.DecodeErr != "" {
+				continue
+			}
+			batch := buildBatch(-1, -1, -1, false, time.Now().UnixMilli(), []rec{{Value: []byte(fmt.Sprintf("probe-%s-%d", name, p))}})
+			ec, base, err := n.produce(ctx, t, int32(p), batch)
+			if err != nil {
+				n.stop()
+				inconclusive("probe produce", err)
+				return fails, c, false
+			}
+			if ec != 0 || base != o1.Parts[key].HWM {
+				fails = append(fails, failure{"recovered cluster mishandles produce", map[string]any{"partition": fmt.Sprintf("%s/%d", name, p), "error": kerrName(ec), "base_offset": base, "hwm_before": o1.Parts[key].HWM}})
+				continue
+			}
+			probed++
+			if commitAt == nil {
+				k := key
+				commitAt = &k
+			}
+		}
+	}
+	if commitAt != nil {
+		if err := n.offsetCommit(ctx, probeGroup, "", -1, commitAt.Topic, commitAt.Part, 424242, "probe"); err != nil {
+			fails = append(fails, failure{"recovered cluster mishandles offset commit", map[string]any{"error": err.Error()}})
+			commitAt = nil
+		}
+	}
+	c.Probes = probed
+	o1p, oerr := observe(ctx, n, groups, run.Txids, false)
+	if oerr != nil {
+		n.stop()
+		inconclusive("observing the recovered cluster after the probes", oerr)
+		return fails, c, false
+	}
+	killState := fsys.deepCopy()
+
+	// a clean restart must be idempotent
 	n.stop()
 	n2, err, panicked := startNode(fsys, run.Sync)
 	if panicked != nil || err != nil {
 		fails = append(fails, failure{"second restart (after a clean Close of the recovered cluster) fails", map[string]any{"error": fmt.Sprint(err), "panic": fmt.Sprint(panicked)}})
 		return fails, c, true
 	}
-	o2, oerr := observe(ctx, n2, run.Groups, run.Txids, false)
+	o2, oerr := observe(ctx, n2, groups, run.Txids, false)
 	n2.stop()
 	if oerr != nil {
-		r.Inconclusive(fmt.Sprintf("%s prefix %d %s: observing after the second restart: %v", run.Name, j, modeNames[ms.mode], oerr))
+		inconclusive("observing after the second restart", oerr)
 		return fails, c, false
 	}
-	for _, d := range diffObs(o1, o2) {
+	for _, d := range diffObs(o1p, o2, nil) {
 		fails = append(fails, failure{"second clean restart not idempotent: " + d.Class, map[string]any{"difference": d.Detail}})
+	}
+
+	// a process kill right after the probes were acked loses nothing
+	n3, err, panicked := startNode(fsFromState(killState, false), run.Sync)
+	if panicked != nil || err != nil {
+		fails = append(fails, failure{"restart after a process kill of the recovered cluster fails", map[string]any{"error": fmt.Sprint(err), "panic": fmt.Sprint(panicked)}})
+		return fails, c, true
+	}
+	o3, oerr := observe(ctx, n3, groups, run.Txids, false)
+	n3.stop()
+	if oerr != nil {
+		inconclusive("observing after the kill of the recovered cluster", oerr)
+		return fails, c, false
+	}
+	for _, key := range sortedTPs(o1p.Parts) {
+		va, vb := o1p.Parts[key], o3.Parts[key]
+		where := fmt.Sprintf("%s/%d", key.Topic, key.Part)
+		switch {
+		case vb == nil:
+			fails = append(fails, failure{"log acked by the recovered cluster lost at its next restart", map[string]any{"partition": where, "lost": "partition missing or unreadable: " + o3.ReadErr[key]}})
+		case vb.DecodeErr != "":
+			fails = append(fails, failure{"log acked by the recovered cluster lost at its next restart", map[string]any{"partition": where, "decode_error": vb.DecodeErr}})
+		case !reflect.DeepEqual(va.Recs, vb.Recs):
+			fails = append(fails, failure{"log acked by the recovered cluster lost at its next restart", map[string]any{"partition": where, "records_before_kill": len(va.Recs), "records_after_restart": len(vb.Recs), "hwm_before": va.HWM, "hwm_after": vb.HWM}})
+		}
+	}
+	if !reflect.DeepEqual(o1p.Commits, o3.Commits) {
+		fails = append(fails, failure{"offset commit acked by the recovered cluster lost at its next restart", map[string]any{"commits_before_kill": fmt.Sprint(o1p.Commits), "commits_after_restart": fmt.Sprint(o3.Commits)}})
 	}
 	return fails, c, true
 }
@@ -220,13 +313,13 @@ func TestCheck(t *testing.T) {
 
 	// sizes are a fixed function of the tier; contents of the seed
 	var specs []wlSpec
-	nSync := r.Pick(2, 6)
+	nSync := r.Pick(3, 14)
 	for i := 0; i < nSync; i++ {
-		specs = append(specs, wlSpec{Name: fmt.Sprintf("sync%d", i), Sync: true, Ops: r.Pick(45, 70), MidRestart: i%2 == 0, DeleteTopic: true})
+		specs = append(specs, wlSpec{Name: fmt.Sprintf("sync%d", i), Sync: true, Ops: r.Pick(40, 80), MidRestart: i%2 == 0, DeleteTopic: i%3 != 2})
 	}
-	nNoSync := r.Pick(1, 2)
+	nNoSync := r.Pick(1, 4)
 	for i := 0; i < nNoSync; i++ {
-		specs = append(specs, wlSpec{Name: fmt.Sprintf("nosync%d", i), Sync: false, Ops: r.Pick(25, 45), MidRestart: i%2 == 1, DeleteTopic: true})
+		specs = append(specs, wlSpec{Name: fmt.Sprintf("nosync%d", i), Sync: false, Ops: r.Pick(25, 50), MidRestart: i%2 == 1, DeleteTopic: true})
 	}
 	specs = append(specs, wlSpec{Name: "cleanonly", Sync: true, Ops: r.Pick(30, 60), MidRestart: true, DelRecords: true})
 
@@ -236,7 +329,7 @@ func TestCheck(t *testing.T) {
 		run, err := runWorkload(specs[i], r.Rand("workload/"+specs[i].Name, i))
 		mu.Lock()
 		defer mu.Unlock()
-		if err != nil && len(run.CleanFail) == 0 {
+		if err != nil && !errors.Is(err, errProbe) {
 			r.Inconclusive(fmt.Sprintf("workload %s did not run to completion: %v", specs[i].Name, err))
 			if run == nil {
 				return
@@ -266,6 +359,7 @@ func TestCheck(t *testing.T) {
 		r.Count("commit_acks_journaled", run.CommitAcks)
 		r.Count("segment_files_created", run.Rolls)
 		r.Count("overwrites_of_synced_bytes", run.Overwrite)
+		r.Count("dontcare_txn_registration_on_deleted_topic", run.RegsOnMissing)
 		kinds := map[opKind]int{}
 		for _, o := range run.Journal {
 			kinds[o.Kind]++
@@ -312,16 +406,14 @@ func TestCheck(t *testing.T) {
 			// without SyncWrites nothing is promised about unsynced data
 			modes = []int{modeKill}
 		}
-		states := materialise(r, run, tk.w, tk.j, modes)
+		states := materialise(r, run, tk.w, tk.j, modes, r.Pick(1, 3))
 		base := replay(run.Journal, tk.j)
 		nontrivial := len(base.unsyncedFiles()) > 0 || base.pendingTmp()
-		verdict := map[int][]failure{}
 		judged := true
 		for _, ms := range states {
 			if ms.sameAs >= 0 {
 				// byte-identical to a filesystem already judged at this prefix
-				verdict[ms.mode] = verdict[ms.sameAs]
-				r.Count("points_"+modeNames[ms.mode]+"_identical_to_judged_mode", 1)
+				r.Count("points_"+modeNames[ms.mode]+"_identical_to_judged_state", 1)
 				continue
 			}
 			fails, c, ok := recoverPoint(r, run, tk.j, ms)
@@ -332,17 +424,17 @@ func TestCheck(t *testing.T) {
 				fmu.Unlock()
 				continue
 			}
-			verdict[ms.mode] = fails
 			r.Eval(1)
 			r.Count("points_"+modeNames[ms.mode]+"_recovered", 1)
 			r.Count("acked_records_checked", c.AcksChecked)
 			r.Count("acked_commits_checked", c.CommitsChecked)
 			r.Count("partitions_checked", c.PartitionsChecked)
+			r.Count("post_recovery_probe_batches", c.Probes)
 			for k, n := range c.Dontcare {
 				r.Count("dontcare_"+k, n)
 			}
 			if nontrivial {
-				r.Distinct(fmt.Sprintf("%s/%d/%s", run.Name, tk.j, modeNames[ms.mode]))
+				r.Distinct(fmt.Sprintf("%s/%d/%s/%d", run.Name, tk.j, modeNames[ms.mode], ms.variant))
 				r.Count("points_inside_multi_op_update", 1)
 			}
 			if len(fails) == 0 && nontrivial && tk.j > 0 && r.WantSample() {
@@ -392,7 +484,7 @@ func TestCheck(t *testing.T) {
 		// what failed names the signature; for losses the loss mode is part
 		// of what failed, for a non-idempotent second restart it is not
 		sig := pf.f.What
-		if !strings.HasPrefix(sig, "second ") {
+		if !strings.HasPrefix(sig, "second clean restart not idempotent") {
 			sig = fmt.Sprintf("%s after %s crash", pf.f.What, modeNames[pf.mode])
 			if !runs[pf.w].Sync {
 				sig += " (without SyncWrites)"
